@@ -46,6 +46,12 @@ void free(void *);
 static inline void *__verif_new(size_t sz) { void *p = malloc(sz); __CPROVER_assume(p != 0); return p; }
 static inline void *__verif_new_array(size_t sz, size_t n)
 { __CPROVER_assert(n <= ((size_t)1 << 40) / (sz ? sz : 1), "model limit: new[] size"); void *p = malloc(sz * n); __CPROVER_assume(p != 0); return p; }
+/* new T[n]() : value-initialised (zeroed).  The contents are not zeroed in the model (no group depends on them);
+ * what is recorded is THAT the object is initialised, for the uninitialised-read obligations of C12_pubkey */
+size_t ghost_zeroed_obj[4]; size_t ghost_zeroed_n;
+static inline void *__verif_new_array_zero_fn(size_t sz, size_t n)
+{ void *p = __verif_new_array(sz, n); if (ghost_zeroed_n < 4) ghost_zeroed_obj[ghost_zeroed_n] = __CPROVER_POINTER_OBJECT(p); ghost_zeroed_n = ghost_zeroed_n + 1; return p; }
+#define __verif_new_array_zero(sz, n) __verif_new_array_zero_fn((sz), (n))
 static inline void __verif_delete(void *p) { free(p); }
 
 #endif
